@@ -19,6 +19,7 @@ type Thread struct {
 	ready  func() bool // nil = runnable
 	name   string
 	harness bool // started by vsym_Go
+	hidx    int  // spawn order among harness threads
 }
 
 type mutexState struct {
@@ -88,6 +89,10 @@ func (m *Machine) threadBody(t *Thread, f func(), isMain bool) {
 		<-t.wake
 		if m.killing {
 			panic(abort{abKilled, ""})
+		}
+		if t.harness && m.explore {
+			// the moment a harness thread first runs is part of the recorded schedule
+			m.events = append(m.events, fmt.Sprintf("vsym-start#%d", t.hidx))
 		}
 	}
 	f()
@@ -257,6 +262,13 @@ func (m *Machine) spawnT(fr *frame, pos token.Pos, fn Value, args []Value, harne
 	}
 	t := m.newThread(fmt.Sprintf("%s#%d", name, len(m.threads)))
 	t.harness = harness
+	if harness {
+		for _, o := range m.threads {
+			if o != t && o.harness {
+				t.hidx++
+			}
+		}
+	}
 	go m.threadBody(t, func() { m.call(nil, pos, fn, args) }, false)
 	if !m.explore {
 		// run-to-block: the new thread runs first
